@@ -337,8 +337,11 @@ package implementation
 
 // liquidity rewards: percentages are divided by constants; each stake's share by the cumulated stake of its token, checked
 // non-zero in the same iteration
-//@ func computeLiquidityStakeRewardsForEpoch(context, epoch)
+// (C11) and whatever the token percentages were, an epoch's update goes through only if what it credited is within that
+// epoch's liquidity emission, ZNN against ZNN and QSR against QSR
+//@ func computeLiquidityStakeRewardsForEpoch(context, epoch) -> (blocks, err)
 //@   safety
+//@   ensures-local[credited-within-the-epoch's-emission] err == nil && liquidityInfo != nil && !liquidityInfo.IsHalted ==> val(totalZnnFunds) <= val(totalZnnAmount) && val(totalQsrFunds) <= val(totalQsrAmount)
 // swap decay, bridge fee, fusion unit: constant divisors
 //@ func ApplyDecay(deposit, currentEpoch)
 //@   safety
